@@ -21,7 +21,7 @@ ID = 'C15'
 LEVEL = 'exploration'
 TECHNIQUE = 'bounded exhaustive enumeration of programs x build routes x type hints x option lattice x converters; pairwise comparison of class attributes and of all-data evaluation results (recording values, all branch outcomes)'
 RULE = ('programs: specials (empty script, no equations, verbatim-only, multi-line, comments), S1 term shapes over 6 names, extras, S4 systems (6 quick / 12 thorough RHS); '
-        '3 routes x 2 type-hint settings x 4 converters with default options, and 3 routes x lags,leads in {None,0,2} x min_lags,min_leads in {0,1}. '
+        '3 routes x 2 type-hint settings x 4 converters with default options, 4 converters that return empty or comment-only strings, and 3 routes x lags,leads in {None,0,2} x min_lags,min_leads in {0,1}. '
         'non-trivial = accepted program with at least one symbol')
 ASSUMPTIONS = [
     'the exec namespace provides BaseModel and the typing names the typed template annotates with (List, Optional, Any)',
